@@ -434,3 +434,9 @@ unsafe fn drop_unreachable_with_adoptions<T>(this: &mut Rc<T>) {
         Global.deallocate(this.ptr.cast(), layout);
     }
 }
+
+// Verification harnesses for the private items of this module (sources are
+// supplied by the verification harness at check time).
+#[cfg(kani)]
+#[path = "verif/k_drop.rs"]
+mod k_drop;
